@@ -5,11 +5,9 @@ go 1.21
 require (
 	github.com/contiv/libOpenflow v0.0.0
 	github.com/sirupsen/logrus v1.9.0
+	golang.org/x/exp v0.0.0-20230420155350-5d9e357047b1
 )
 
-require (
-	golang.org/x/exp v0.0.0-20230420155350-5d9e357047b1 // indirect
-	golang.org/x/sys v0.1.0 // indirect
-)
+require golang.org/x/sys v0.1.0 // indirect
 
 replace github.com/contiv/libOpenflow => /repo
